@@ -1067,6 +1067,8 @@ class TransportLayerLogic:
                         self.active_send_request = None
                     else:
                         size_on_first_byte = (self.active_send_request.generator.remaining_size() + len(self.address.get_tx_payload_prefix())) <= 7
+                        if self.params.tx_data_min_length is not None and self.params.tx_data_min_length > 8:
+                            size_on_first_byte = False  # Frame will be padded above 8 bytes: escape sequence is mandatory
                         size_offset = 1 if size_on_first_byte else 2
 
                         try:
